@@ -14,7 +14,7 @@ NOTES = {
     "C08-loop-counter-indexes-past-loop-stack": "the rewrite indexes a sub-slice of a vector with a symbolic hidden part: mirsym refuses; the committed coverage baseline turns the refusal into an inconclusive run",
     "C12-collect-base-in-meta": "the wrong pointer reaches below the explicit cells into the symbolic hidden part: the slice is refused (C12 collect lemma undecided); C11's sealing lemmas do not cover collect",
     "C12-str-slice-byte-len": "string slicing by characters: strings are opaque in the word lemmas (the text model is used for the lexer and token locations only)",
-    "C13-join-raw-match": "only the characters produced by join / concat change: text building is opaque in E2",
+    "C13-join-raw-match": "the tagged string element now goes through format_cell (format! machinery, opaque in E2): the join lemma on the text model is refused on that path, so the run is inconclusive rather than green",
     "C15-store-skipped-when-equal-while-recording": "found by the solver (recording on/off leaves different heaps), but the model it returns stores an equal untagged value, which is not observable natively: not reproduced, exit 2",
     "C18-zero85-encode-zero-padding": "the rewrite pads through Cow::into_owned / Vec::resize on an opaque byte buffer: refused, encode lemma undecided",
     "C07-concat-unaligned-raw-field": "a bit-level defect of append (whole-byte tail at an odd bit offset onto an aligned receiver): see the C04 run",
